@@ -7,6 +7,7 @@ import copy as _copy
 import hashlib
 import json
 import math
+import signal
 from fractions import Fraction
 
 from shapepy import JordanCurve, Primitive
@@ -15,7 +16,21 @@ from shapepy.polygon import Point2D
 from . import faults, gen, kernel, model, ops
 
 HEAP_MAX = 8
-DEFAULT_BUDGET = 6_000_000  # PY_START events per library call (hang verdict)
+DEFAULT_BUDGET = 60_000_000  # PY_START events per library call (hang verdict)
+
+
+CALL_WALL = 150  # seconds: wall-clock backstop per library call (harness error, never a verdict)
+
+
+class CallTimeout(BaseException):
+    pass
+
+
+def _on_alarm(signum, frame):
+    raise CallTimeout()
+
+
+signal.signal(signal.SIGALRM, _on_alarm)
 
 
 class Violation(Exception):
@@ -92,6 +107,15 @@ class World:
 
     # ------------------------------------------------------------- helpers
     def _call(self, step, objs, idx, who):
+        signal.setitimer(signal.ITIMER_REAL, CALL_WALL)
+        try:
+            return self._call_inner(step, objs, idx, who)
+        except CallTimeout:
+            raise HarnessError(f"{who} call of {step['op']} at step {idx} exceeded {CALL_WALL}s wall clock")
+        finally:
+            signal.setitimer(signal.ITIMER_REAL, 0)
+
+    def _call_inner(self, step, objs, idx, who):
         self.library_calls += 1
         fn = lambda: ops.perform(step, objs)  # noqa: E731
         if self.use_budget:
@@ -268,9 +292,9 @@ class World:
                             f"{op} did not return the same object")
         post = model.value(o.live)
         pred = fn(pre)
-        if model.structure(post) != model.structure(pre):
+        if model.structure(post) != model.structure(pred):
             raise Violation("transform-structure", "C09", idx,
-                            f"{op} changed the structure: {model.structure(pre)} -> {model.structure(post)}")
+                            f"{op} changed the structure: {model.structure(pred)} expected, {model.structure(post)} found")
         exact = args_rational and kernel.is_rational(pre)
         if exact or op == "invert":
             if model.value_bits(pred) != model.bits(o.live):
@@ -353,7 +377,16 @@ class World:
         if do_t1:
             for n in names:
                 if n not in twins1:
-                    tw = _copy.deepcopy(self.slots[n].live)
+                    try:
+                        tw = _copy.deepcopy(self.slots[n].live)
+                    except Exception as e:  # noqa: BLE001
+                        if self.slots[n].sane:
+                            raise Violation("twin-deepcopy", "C10", idx,
+                                            f"deepcopy of the operand in slot {n} raised "
+                                            f"{type(e).__name__}: {e} (before {op})")
+                        self.stats.inc("probe:twin_copy_raised_on_insane_value")
+                        do_t1 = False
+                        break
                     twins1[n] = tw
                     if model.bits(tw) != model.bits(self.slots[n].live):
                         lossless = False
@@ -377,7 +410,7 @@ class World:
         # expectation carried over from an earlier step (inverse pairs)
         if "same_answer_as" in step and step["same_answer_as"] in self.answers:
             prev = self.answers[step["same_answer_as"]]
-            if prev is not None and prev[1] != ans[1]:
+            if prev is not None and prev[0] == "bool" and prev[1] != ans[1]:
                 raise Violation("inverse-pair-equality", "C09", idx,
                                 f"{op} answered {ans[2]!r}; before the transformation and its inverse "
                                 f"it answered {prev[2]!r}")
@@ -434,7 +467,12 @@ class World:
             twins2 = {}
             for n in names:
                 if n not in twins2:
-                    twins2[n] = model.fresh(self.slots[n].V)
+                    try:
+                        twins2[n] = model.fresh(self.slots[n].V)
+                    except Exception as e:  # noqa: BLE001
+                        raise Violation("twin-fresh", "C10", idx,
+                                        f"rebuilding the operand in slot {n} from its value raised "
+                                        f"{type(e).__name__}: {e}; value {_short(self.slots[n].V)}")
             out2 = self._call(step, [twins2[n] for n in names], idx, "T2")
             ans2 = ops.normalise(*out2)
             self.stats.inc("oracle:t2")
@@ -567,7 +605,7 @@ def _ansstr(ans):
 
 
 def _argstr(step):
-    keys = [k for k in step if k not in ("op", "a", "b", "dst", "t1", "t2", "repeat", "drop", "same_answer_as")]
+    keys = [k for k in step if k not in ("op", "a", "b", "dst", "t1", "t2", "repeat", "drop", "same_answer_as", "needs")]
     return "(" + ", ".join(f"{k}={_argval(step[k])}" for k in keys) + ")"
 
 
